@@ -273,6 +273,50 @@ def check_attr_order(st: Stats) -> None:
                         st.violate(f"C03|OperationInfo|{where}-order|hash", "equal OperationInfo with different hashes", wit)
 
 
+def check_region_shapes(st: Stats) -> None:
+    """every ordered pair of ops that differ (or not) only in the SHAPE of their regions — no region, a region without
+    blocks, an empty block, a block with ops, two blocks, block arguments — for is_structurally_equivalent and OperationInfo"""
+    import itertools as it
+
+    from xdsl.dialects.builtin import i32, i64
+    from xdsl.dialects.test import TestOp
+    from xdsl.ir import Block, Region
+    from xdsl.transforms.common_subexpression_elimination import OperationInfo
+
+    def region(shape):
+        blocks = []
+        for arg_types, n_ops in shape:
+            b = Block(arg_types=arg_types)
+            for _ in range(n_ops):
+                b.add_op(TestOp(result_types=[i32]))
+            blocks.append(b)
+        return Region(blocks)
+
+    shapes = [(), (((), 0),), (((), 1),), (((), 2),), (((i32,), 0),), (((i64,), 0),), (((i32,), 1),), (((), 0), ((), 0)), (((), 1), ((), 0)), (((), 0), ((), 1))]
+    combos = [()] + [(s,) for s in shapes] + [(s, t) for s in shapes[:4] for t in shapes[:4]]
+    for c1, c2 in it.product(combos, repeat=2):
+        o1 = TestOp(result_types=[i32], regions=[region(s) for s in c1])
+        o2 = TestOp(result_types=[i32], regions=[region(s) for s in c2])
+        st.executions += 1
+        st.evaluations += 3
+        ref = canon([o1]) == canon([o2])
+        wit = {"regions1": repr(c1), "regions2": repr(c2)}
+        try:
+            g = (o1.is_structurally_equivalent(o2), o2.is_structurally_equivalent(o1))
+            e = (OperationInfo(o1) == OperationInfo(o2), OperationInfo(o2) == OperationInfo(o1))
+        except Exception as ex:  # noqa: BLE001
+            st.violate(f"C03|region-shapes|raises|{type(ex).__name__}", f"comparison of ops that differ in region shape raised {type(ex).__name__}", wit)
+            continue
+        if g != (ref, ref):
+            st.violate(f"C03|operation|region-shapes|{'false-negative' if ref else 'false-positive'}",
+                       f"is_structurally_equivalent says {g} for ops whose regions {'are the same' if ref else 'differ in shape'}", wit)
+        if e != (ref, ref):
+            st.violate(f"C03|OperationInfo|region-shapes|{'false-negative' if ref else 'false-positive'}",
+                       f"OperationInfo equality says {e} for ops whose regions {'are the same' if ref else 'differ in shape'}", wit)
+        elif ref and hash(OperationInfo(o1)) != hash(OperationInfo(o2)):
+            st.violate("C03|OperationInfo|region-shapes|hash", "equal OperationInfo with different hashes", wit)
+
+
 def _defined_in(op) -> list:
     out = list(op.results)
     for r in op.regions:
@@ -321,6 +365,7 @@ def run(ctx):
         spaces = [dict(max_blocks=2, max_ops=3, max_args=1, depth=1), dict(max_blocks=3, max_ops=2, max_args=0, depth=0)]
         cross = dict(max_blocks=2, max_ops=2, max_args=1, depth=1)
     check_attr_order(ctx.stats)
+    check_region_shapes(ctx.stats)
     n = 64
     tasks = [(sp, i, n, ctx.seed) for sp in spaces for i in range(n)]
     for _, st in pmap(_shard, tasks):
